@@ -437,6 +437,10 @@ def _pending_flag_protocol(ctx, fb, skip_blocks, cedge, methods):
     return (True, f"flush is skipped only while `{flag}` is clear; writes can only raise it; it is cleared only after the inner flush succeeded")
 
 
+# borrowed views of a Result: looking at the view's error is looking at the Result's error
+_RESULT_VIEWS = ("std::result::Result::<T, E>::as_ref", "std::result::Result::<T, E>::as_mut", "std::result::Result::<T, E>::as_deref")
+
+
 # indirect calls of an io::Write method (a method path handed to a helper that calls it): id(terminator) ->
 # (fn operand, argument operands, terminator kept alive)
 _INDIRECT = {}
@@ -542,7 +546,7 @@ def r16_1(ctx):
         tests = [kt for kt in kind_tests(sup) if kt.named() == ["BrokenPipe"]]
         examined = False
         for kt in tests:
-            ktr = strace_deep(sup, kt.kind_node, kt.kind_call["args"][0])
+            ktr = strace_deep(sup, kt.kind_node, kt.kind_call["args"][0], extra=_RESULT_VIEWS)
             if ktr.origin and ktr.origin[0] == "call" and ktr.origin[2] is it_ and any(s_[0] == "downcast" and s_[1] == "Err" for s_ in ktr.steps):
                 examined = True
         returned = bool(rets) and _derives_unchanged(ctx.bin, sup, ((), rets[0]), {"k": "copy", "p": {"l": 0, "pr": []}}, it_)
@@ -597,7 +601,7 @@ def r16_2(ctx):
             continue
         kt = tests[0]
         n, kcall = kt.kind_node, kt.kind_call
-        ptr = strace(sup, n, kcall["args"][0])
+        ptr = strace(sup, n, kcall["args"][0], extra=_RESULT_VIEWS)
         kind_ok = bool(ptr.origin and ptr.origin[0] == "arg" and ptr.origin[1] == 1 and not ptr.origin_node[0] and any(s[0] == "downcast" and s[1] == "Err" for s in ptr.steps))
         # or the scope produces the checked result itself (`op(&mut self.inner).map_err(|err| ..)`): the call whose
         # Err payload is examined
